@@ -128,6 +128,32 @@ def structural(rng, tier):
             out.append(("struct-%s-%d" % (kind, rep), s))
     return out
 
+def dwarf_base(rng, tier):
+    """DWARF modules whose stated base address is so high that base + relative address leaves the address space"""
+    out = []
+    for rep in range(6 if tier == "quick" else 48):
+        arch = "x86" if rep % 2 == 0 else "a64"
+        R = ARCH_REGS[arch]
+        pres = ["hdr", "eh", "debug"][rep % 3]
+        s = Script(arch, "may" if rep % 4 < 2 else "must")
+        base_svma = rng.choice([M64, M64 - 0xfff, M64 - 0x10000 + 1, (1 << 64) - (1 << 32), (1 << 64) - (1 << 32) + 0x1000])
+        nf = rng.range(1, 3)
+        fdes = []
+        for i in range(nf):
+            st = (base_svma + 0x100 * i) & M64 if base_svma + 0x100 * i + 0x80 <= M64 else (base_svma - 0x1000 + 0x100 * i)
+            fdes.append(dict(start=st, len=rng.choice([0x40, 0x80]), rows=[(0, dict(cfa=("r", R["sp"], 16), fp=("s",), ra=(("o", -8) if arch == "x86" else ("s",))))]))
+        s.module_dwarf("M", 0x10000, 0x10000 + (1 << 33), 0x10000, base_svma, pres, fdes, rng,
+                       eh_svma=rng.choice([0x200000, base_svma]), hdr_svma=rng.choice([0x300000, base_svma]))
+        s.add("new U"); s.add("add U M"); s.add("newcache C")
+        s.mem("S", [(0x7000 + 8 * i, 0x10040) for i in range(64)])
+        for rel in [0, 1, 0x40, 0xff, 0x100, 0xfff, 0x1000, 0xffff, 0x10000, 0xffffffff, (M64 - base_svma) & 0xffffffff, ((M64 - base_svma) + 1) & 0xffffffff]:
+            for mode in ("ip", "ra"):
+                a = 0x10000 + rel + (1 if mode == "ra" else 0)
+                regs = s.regs_x86(a, 0x7000, 0x7100) if arch == "x86" else s.regs_a64(M64, 0x10040, 0x7000, 0x7100)
+                s.add("unwind U C %s %s %s S" % (mode, hx(a), regs), tag="struct:dwarf-base:%s:%s" % (pres, mode))
+        out.append(("struct-dwarf-base-%d" % rep, s))
+    return out
+
 def retarget_uinfo(line, funcs, miss, old_rva, new_rva):
     """make function entries that point at unwind info `miss` point at new_rva (both views)"""
     a_part, b_part = line.split(" B ", 1)
@@ -261,8 +287,47 @@ def bytes_stream(rng, tier):
             out.append(("bytes-%s-%d" % (name, rep), s))
     return out
 
+def macho_ranges(rng, tier):
+    """Mach-O modules (any __unwind_info bytes) whose __stubs / __stub_helper / __text ranges are inconsistent
+    with the image base; judged only until C02's compact-unwind encoders exist."""
+    out = []
+    for rep in range(4 if tier == "quick" else 40):
+        arch = "x86" if rep % 2 == 0 else "a64"
+        s = Script(arch, "may" if rep % 4 < 2 else "must")
+        base_svma = rng.choice([0x100000000, 0x1000, 0])
+        base = 0x10000000
+        def rg(kind):
+            if kind == "ok":
+                lo = base_svma + 0x100 * rng.range(1, 64); return lo, lo + 0x40
+            if kind == "below":
+                lo = (base_svma - rng.choice([1, 0x10, 0x1000])) & M64; return lo, (lo + 0x40) & M64
+            if kind == "inverted":
+                lo = base_svma + 0x2000; return lo, lo - 0x800
+            lo = base_svma + rng.choice([1 << 32, (1 << 32) - 0x10, 1 << 40]); return lo & M64, (lo + 0x40) & M64
+        kinds = [rng.choice(["ok", "below", "inverted", "far"]) for _ in range(3)]
+        ui = bytes(rng.below(256) for _ in range(rng.range(0, 96))) if rng.chance(1, 2) else struct.pack("<IIIIIII", 1, 28, 0, 28, 0, 28, 0)
+        text = bytes(rng.below(256) for _ in range(0x100))
+        secs = [("__unwind_info", hexs(ui), "-", "-"),
+                ("__stubs", "-", hx(rg(kinds[0])[0]), hx(rg(kinds[0])[1])),
+                ("__stub_helper", "-", hx(rg(kinds[1])[0]), hx(rg(kinds[1])[1])),
+                ("__text", hexs(text), hx(rg(kinds[2])[0]), hx(rg(kinds[2])[1]))]
+        flat = [str(len(secs))] + [x for sct in secs for x in sct]
+        s.add("mod M %s %s %s %s A none B %s" % (hx(base), hx(base + 0x100000), hx(base), hx(base_svma), " ".join(flat)),
+              tag="create:macho:" + "/".join(kinds))
+        s.add("new U"); s.add("add U M", tag="add"); s.add("newcache C")
+        s.mem("S", [(0x7000 + 8 * i, rng.choice([0, base + 0x100 * rng.below(64), rng.u64()])) for i in range(64)])
+        for _ in range(10):
+            a = base + rng.choice([0, 1, 0x100 * rng.below(64) + rng.below(0x40), 0xfffff])
+            mode = rng.choice(["ip", "ra"])
+            regs = s.regs_x86(a, 0x7000 + 8 * rng.below(32), rng.choice([0, 0x7100, rng.u64()])) if arch == "x86" else \
+                s.regs_a64(M64, rng.u64(), 0x7000 + 16 * rng.below(16), rng.choice([0, 0x7100]))
+            s.add("unwind U C %s %s %s S" % (mode, hx(a + (1 if mode == "ra" else 0)), regs), tag="unwind:macho:" + "/".join(kinds))
+        s.nomodel = True
+        out.append(("macho-ranges-%d" % rep, s))
+    return out
+
 def generate(rng, tier):
-    return structural(rng, tier) + bytes_stream(rng, tier)
+    return structural(rng, tier) + dwarf_base(rng, tier) + bytes_stream(rng, tier) + macho_ranges(rng, tier)
 
 OWN = re.compile(r"panic own\b")
 def judge(script, impl):
